@@ -62,6 +62,29 @@ theorem takeLine_append (b l r e : Bytes) (h : takeLine b = some (l, r)) :
 theorem takeLine_length (b l r : Bytes) (h : takeLine b = some (l, r)) : r.length + l.length + 2 = b.length := by
   rw [takeLine_spec b l r h]; simp; omega
 
+theorem takeFields_ne_refuse (n : Nat) (b : Bytes) (x : Option Nat) : takeFields n b ≠ .refuse x := by
+  induction n generalizing b x with
+  | zero => simp [takeFields]
+  | succ n ih =>
+    unfold takeFields
+    cases hl : takeLine b with
+    | none => simp
+    | some q =>
+      obtain ⟨l, rest⟩ := q
+      cases l with
+      | nil => simp
+      | cons c l' =>
+        simp only
+        cases hp : parseField (c :: l') with
+        | none => simp
+        | some f =>
+          simp only
+          cases ht : takeFields n rest with
+          | incomplete => simp
+          | bad => simp
+          | refuse y => exact absurd ht (ih rest y)
+          | ok fs r => simp
+
 theorem takeFields_append (n m : Nat) (b e : Bytes) (fs : List Field) (r : Bytes)
     (h : takeFields n b = .ok fs r) (hnm : n ≤ m) : takeFields m (b ++ e) = .ok fs (r ++ e) := by
   induction n generalizing m b fs with
@@ -90,6 +113,7 @@ theorem takeFields_append (n m : Nat) (b e : Bytes) (fs : List Field) (r : Bytes
             cases ht : takeFields n rest with
             | incomplete => simp [ht] at h
             | bad => simp [ht] at h
+            | refuse x => exact absurd ht (takeFields_ne_refuse _ _ x)
             | ok fs' r' =>
               simp only [ht] at h
               cases h
@@ -121,6 +145,7 @@ theorem takeFields_bad_append (n m : Nat) (b e : Bytes)
             cases ht : takeFields n rest with
             | incomplete => simp [ht] at h
             | bad => rw [ih m rest ht (by omega)]
+            | refuse x => exact absurd ht (takeFields_ne_refuse _ _ x)
             | ok fs' r' => simp [ht] at h
 
 theorem takeFields_length (n : Nat) (b : Bytes) (fs : List Field) (r : Bytes)
@@ -146,6 +171,7 @@ theorem takeFields_length (n : Nat) (b : Bytes) (fs : List Field) (r : Bytes)
           cases ht : takeFields n rest with
           | incomplete => simp [ht] at h
           | bad => simp [ht] at h
+          | refuse x => exact absurd ht (takeFields_ne_refuse _ _ x)
           | ok fs' r' =>
             simp only [ht] at h
             cases h
@@ -169,6 +195,7 @@ theorem parseHead_append (b e : Bytes) (h : Head) (r : Bytes) (hp : parseHead b 
       cases ht : takeFields (rest.length + 1) rest with
       | incomplete => simp [ht] at hp
       | bad => simp [ht] at hp
+      | refuse x => exact absurd ht (takeFields_ne_refuse _ _ x)
       | ok fs r' =>
         simp only [ht] at hp
         rw [takeFields_append _ ((rest ++ e).length + 1) rest e fs r' ht (by simp)]
@@ -193,6 +220,7 @@ theorem parseHead_bad_append (b e : Bytes) (hp : parseHead b = .bad) : parseHead
       cases ht : takeFields (rest.length + 1) rest with
       | incomplete => simp [ht] at hp
       | bad => rw [takeFields_bad_append _ ((rest ++ e).length + 1) rest e ht (by simp)]
+      | refuse x => exact absurd ht (takeFields_ne_refuse _ _ x)
       | ok fs r' =>
         simp only [ht] at hp
         rw [takeFields_append _ ((rest ++ e).length + 1) rest e fs r' ht (by simp)]
@@ -218,6 +246,7 @@ theorem parseHead_length (b : Bytes) (h : Head) (r : Bytes) (hp : parseHead b = 
       cases ht : takeFields (rest.length + 1) rest with
       | incomplete => simp [ht] at hp
       | bad => simp [ht] at hp
+      | refuse x => exact absurd ht (takeFields_ne_refuse _ _ x)
       | ok fs r' =>
         simp only [ht] at hp
         have h2 := takeFields_length _ rest fs r' ht
@@ -225,15 +254,35 @@ theorem parseHead_length (b : Bytes) (h : Head) (r : Bytes) (hp : parseHead b = 
         · cases hp; omega
         · cases hp
 
+theorem parseHead_ne_refuse (b : Bytes) (x : Option Nat) : parseHead b ≠ .refuse x := by
+  unfold parseHead
+  cases hl : takeLine b with
+  | none => simp
+  | some q =>
+    obtain ⟨l, rest⟩ := q
+    simp only
+    cases hr : parseRequestLine l with
+    | none => simp
+    | some q2 =>
+      obtain ⟨m, t, v⟩ := q2
+      simp only
+      cases ht : takeFields (rest.length + 1) rest with
+      | incomplete => simp
+      | bad => simp
+      | refuse y => exact absurd ht (takeFields_ne_refuse _ _ y)
+      | ok fs r => simp only; split <;> simp
+
 /-- the strict splitter is an incremental scanner -/
 theorem strictLawful : @LawfulHeadParser strictParser :=
   @LawfulHeadParser.mk strictParser
     rfl
     parseHead_append
     parseHead_bad_append
+    (fun b e x h => absurd h (parseHead_ne_refuse b x))
     (fun b h r hp => by have := parseHead_length b h r hp; omega)
     (fun b e fs r h => takeFields_append _ _ b e fs r h (by simp))
     (fun b e h => takeFields_bad_append _ _ b e h (by simp))
+    (fun b e x h => absurd h (takeFields_ne_refuse _ b x))
     (fun b fs r h => by have := takeFields_length _ b fs r h; omega)
 
 end Mhd.Framing
